@@ -22,7 +22,7 @@ def derive_seed(seed, *parts):
     return int.from_bytes(h, 'little')
 
 
-def search(strategy, check, *, seed, max_examples, stats, to_case, shrink=True, rounds=3):
+def search(strategy, check, *, seed, max_examples, stats, to_case, shrink=True, rounds=3, minimizer=None):
     """Run `check(value)` over generated values.
 
     check returns None (holds), or (signature, message) on a violation, or
@@ -61,6 +61,13 @@ def search(strategy, check, *, seed, max_examples, stats, to_case, shrink=True, 
         try:
             t()
         except PropertyFailed:
+            if minimizer is not None:
+                try:
+                    v2, m2 = minimizer(last['value'], last['sig'])
+                    if v2 is not None:
+                        last['value'], last['msg'] = v2, m2
+                except Exception:
+                    pass
             case = to_case(last['value'], last['msg'])
             case['signature'] = str(last['sig'])
             stats.violation(case)
